@@ -685,3 +685,43 @@ def r_state(A, ctx, scope, rule="R-STATE"):
                             "fresh compiled_clone (a shared object would keep the last alpha)",
                        loc=loc(m, c))
     ctx.floor(rule, n, scope.get("floor", 8))
+
+
+def r_classifkind(A, ctx, scope, rule="R-CLASSIFKIND"):
+    ctx.rule(rule, "which datafits make an estimator a classifier is decided by the same subclass-aware "
+             "test wherever it is decided: the isinstance class tuples of _glm_fit (label encoding, "
+             "classes_) and of predict agree, and no test on a datafit's class *name* mentions a "
+             "class that has subclasses in the registry (a Logistic subclass would be fitted as a "
+             "classifier and predicted as a regressor)")
+    prog = A.prog
+    em = prog.modules.get("skglm.estimators")
+    if em is None:
+        raise AnalysisError("skglm.estimators missing")
+    with_sub = {c.name for c in prog.datafits if any(d is not c and d.is_subclass_of(c) for d in prog.datafits)}
+    n = 0
+    tuples = {}
+    funcs = list(em.functions.values()) + [m for c in em.classes.values() for m in c.methods.values()]
+    for f in funcs:
+        for node in ast.walk(f.node):
+            if isinstance(node, ast.Call) and ast.unparse(node.func) == "isinstance" and len(node.args) == 2 \
+                    and "datafit" in ast.unparse(node.args[0]):
+                kinds = node.args[1].elts if isinstance(node.args[1], (ast.Tuple, ast.List)) else [node.args[1]]
+                names = frozenset(ast.unparse(k) for k in kinds)
+                if "Logistic" in names:
+                    tuples.setdefault(names, []).append((f, node))
+            if isinstance(node, ast.Compare) and "__name__" in ast.unparse(node) and "datafit" in ast.unparse(node):
+                strs = {c.value for c in ast.walk(node) if isinstance(c, ast.Constant) and isinstance(c.value, str)}
+                hit = strs & with_sub
+                n += 1
+                ctx.ob(rule, f"{f.fq}::name-test::{norm_src(node)[:60]}", not hit,
+                       what=f"`{norm_src(node)[:80]}` decides on the class name; {sorted(hit)} has subclasses "
+                            f"among the datafits ({sorted(d.name for d in prog.datafits if any(d is not c and d.is_subclass_of(c) and c.name in hit for c in prog.datafits))}): "
+                            "they are treated differently here than by the isinstance tests elsewhere "
+                            "(fitted with encoded labels and classes_, predicted as raw decision values)",
+                       loc=loc(f, node))
+    n += 1
+    sites = sorted({f.qualname for v in tuples.values() for f, _ in v})
+    ctx.ob(rule, "classifier-datafit-tuples", len(tuples) <= 1 and len(sites) >= 2,
+           what=f"the classifier tests disagree or one of them is gone: {[sorted(k) for k in tuples]} in {sites}",
+           loc=None)
+    ctx.floor(rule, n, 1)
